@@ -227,6 +227,39 @@ func runC20(c *Ctx) {
 		r.Check("C20.4", "nil-watcher-true", ok, c.U.Pos(up.Pos()), "update returns true when there is no watcher: every query rescans until a watcher can be created")
 	}
 
+	if su := c.fn("C20.4", "cdi", "(*watch).setup"); su != nil {
+		// every path through setup (re)assigns w.watcher from NewWatcher's result: after a
+		// failed creation it is nil, never the previous (closed) watcher
+		var stores []ssa.Instruction
+		ir.Instrs(su, func(in ssa.Instruction) {
+			st, ok := in.(*ssa.Store)
+			if !ok {
+				return
+			}
+			if normExpr(su, []string{c.exprDesc(st.Addr)})[0] != "$0.watcher" {
+				return
+			}
+			v := normExpr(su, []string{c.exprDesc(st.Val)})[0]
+			if v == "github.com/fsnotify/fsnotify.NewWatcher()#0" || v == "nil" {
+				stores = append(stores, in)
+			}
+		})
+		ok := len(stores) > 0
+		for _, ret := range ir.NormalReturns(su) {
+			if !ir.MustPassBefore(su, ret, func(in ssa.Instruction) bool {
+				for _, s := range stores {
+					if s == in {
+						return true
+					}
+				}
+				return false
+			}) {
+				ok = false
+			}
+		}
+		r.Check("C20.4", "setup-resets-watcher", ok, c.U.Pos(su.Pos()), "on every path through setup w.watcher becomes NewWatcher's result (nil when creation failed): a stale closed watcher would make update() stop forcing refreshes")
+	}
+
 	// ---- C20.5
 	cacheT := c.U.NamedType("cdi", "Cache")
 	st := ir.StructOf(cacheT)
